@@ -53,9 +53,30 @@ def generate(rng, tier):
                                                                    ("OBDuration", 0), ("OBPoints", 0)]
         nedits = rng.randint(0, 5)
         pre_names = [s[3] for s in segs if s[3] and s[3].startswith("pre")]
+        durs = {s[3]: Fraction(s[2]) for s in segs if s[2] is not None}
+
+        def dusty(durs):
+            """Some wait target coincides with the elapsed time up to float dust: whether that counts as an overrun is
+            decided by binary64 rounding of the implementation's running sum, not by the property (float gap, DESIGN 9.5)."""
+            el = Fraction(0)
+            for fn, args, _d, nm, _k in segs:
+                if fn == "waituntil":
+                    if abs(Fraction(args[0]) - el) * Fraction(SR) < Fraction(1, 1000):
+                        return True
+                    el = max(el, Fraction(args[0]))
+                else:
+                    el += durs[nm]
+            return False
+
         for _ in range(nedits):
-            t = rng.choice(pre_names)
-            k = rng.choice([2, 3, 5, 8, 13, 40, 90])
+            for _try in range(8):
+                t = rng.choice(pre_names)
+                k = rng.choice([2, 3, 5, 8, 13, 40, 90])
+                if not dusty(dict(durs, **{t: Fraction(k / SR)})):
+                    break
+            else:
+                continue
+            durs[t] = Fraction(k / SR)
             prog += [("BChangeDur", 0, t, k / SR, False), ("OBDescr", 0), ("OBForge", 0), ("OBDuration", 0), ("OBPoints", 0)]
         yield {"prog": prog, "kind": "waits", "SR": SR, "nedits": nedits}
 
@@ -83,6 +104,9 @@ def oracle(case, impl):
             if s["function"] == "waituntil":
                 t = Fraction(s["arguments"]["waittime"][0])
                 pad = (t - elapsed) * SR
+                if abs(pad) < Fraction(1, 10**6):
+                    near_tie = True          # target == elapsed up to float dust: overrun or not is a rounding accident
+                    break
                 if t < elapsed:
                     overrun = True
                     break
